@@ -73,7 +73,21 @@ fn main() {
             }
         }
     }
+    // trusted records with SEVERAL addresses of which one belongs to another node, at every position
+    for (label, addrs) in [("trusted [other, me]", vec![other.verifying_key(), id]), ("trusted [me, other]", vec![id, other.verifying_key()]), ("trusted [me, other, me]", vec![id, other.verifying_key(), id]), ("trusted [other, me, me]", vec![other.verifying_key(), id, id])] {
+        let mut u = TrustedTransportInfo::new();
+        u.timestamp = ts(990, 0);
+        u.addresses = addrs.iter().map(|k| TransportAddress::from_iroh(*k, None, [])).collect();
+        let rec: TransportInfo = u.into();
+        let mut node = NodeInfo { node_id: id, bootstrap: false, transports: None, metrics: NodeMetrics::default() };
+        let r = node.update_transports(rec.clone());
+        n += 1;
+        if (r.is_ok() || node.transports.is_some()) && reported.insert("forged-or-mismatched-record-accepted") {
+            rp_core::report(true, "forged-or-mismatched-record-accepted", json!({"record": label}), json!({"result": format!("{r:?}"), "stored": node.transports.is_some()}),
+                &["addrs::NodeTransportInfo@TrustedTransportInfo::verify.ensures#ok_iff_all_addresses_match", "addrs::NodeTransportInfo@TrustedTransportInfo::verify.safety", "addrs::NodeInfo::update_transports.ensures#forged_or_mismatched_rejected"]);
+        }
+    }
     println!("{}", json!({"summary": true, "evaluations": n, "distinct_nontrivial": n, "exhaustive": true,
-        "rule": "all 5040 arrival orders of 7 records (3 authentic with timestamps (100,3),(200,0),(200,1); forged signature; trusted matching; trusted mismatching), checked after every update; every step is non-trivial (a record is offered)",
+        "rule": "trusted multi-address records with a foreign address at every position; all 5040 arrival orders of 7 records (3 authentic with timestamps (100,3),(200,0),(200,1); forged signature; trusted matching; trusted mismatching), checked after every update; every step is non-trivial (a record is offered)",
         "bound": "7 records, all permutations", "samples": [{"order": ["authentic (200,0)", "authentic (100,3)"], "expected_stored": "200/0"}], "violating_classes": reported}));
 }
